@@ -8,6 +8,7 @@ package main
 
 import (
 	"fmt"
+	"math/rand"
 	"sort"
 	"strings"
 	"sync"
@@ -166,6 +167,13 @@ func runOperatorPairs(scratch string, seed int64, tier string, verbose bool) []*
 			normal = normal[next:]
 		}
 		// (2) cases where the Go panicked: TLC must fail to evaluate too; one TLC process each
+		// (quick tier: a seeded sample of at most 3 per pair — each costs a TLC start-up)
+		if tier != "thorough" && len(failing) > 3 {
+			rng := rand.New(rand.NewSource(seed + int64(len(failing))))
+			rng.Shuffle(len(failing), func(i, j int) { failing[i], failing[j] = failing[j], failing[i] })
+			st.Notes = append(st.Notes, fmt.Sprintf("quick tier: %d of %d cases in which the Go operator fails were compared with TLC", 3, len(failing)))
+			failing = failing[:3]
+		}
 		common.Parallel(len(failing), 6, func(i int) {
 			c := failing[i]
 			res, raw, err := eval([]string{c.tlaCall})
